@@ -537,6 +537,38 @@ pub fn run(args: &Args, sound: bool) -> Report {
         });
         total.merge(rep);
     }
+    if !sound {
+        // ---- configuration sweep (no instance is built): every valid (layers, step style, last-layer log
+        // bound 0..=15, blow-up 0..=16) must pass the real Config::validate with the right degree bound -
+        // the instance generator keeps domains small and never reaches the upper ends of the ranges
+        let hash = crate::build_hash();
+        let mut n_cfg = 0u64;
+        let mut rep = Report::new();
+        for n_layers in 2usize..=15 {
+            for style in [1u32, 2, 3, 4] {
+                for lb in 0u32..=15 {
+                    for c in [0u32, 1, 4, 16] {
+                        let mut steps = vec![0u32];
+                        steps.extend(std::iter::repeat(style).take(n_layers - 1));
+                        let p = FriParams { steps, lb, c, n_friendly: 0, hash, extra_height: 0 };
+                        if p.m() > 64 {
+                            continue;
+                        }
+                        let cfg = fri_config(&p);
+                        let want = Felt::from(p.degree_bound_log() as u64);
+                        n_cfg += 1;
+                        rep.case(&format!("cfgsweep|{n_layers}|{style}|{lb}|{c}"), true);
+                        match catch(move || cfg.validate(Felt::from(c as u64), Felt::ZERO).map_err(|e| format!("{e:?}"))) {
+                            Ok(Ok(d)) if d == want => {}
+                            other => rep.violation("C06|valid-config-rejected|sweep", &format!("a valid FRI configuration ({n_layers} layers of step {style}, last-layer log bound {lb}, log blow-up {c}) was not accepted by Config::validate: {other:?}"), serde_json::json!({"n_layers": n_layers, "step": style, "log_last_layer_bound": lb, "log_n_cosets": c})),
+                        }
+                    }
+                }
+            }
+        }
+        rep.count("config_sweep.accepted_required", n_cfg);
+        total.merge(rep);
+    }
     let n: u64 = args.u64("n", match (sound, thorough) {
         (false, false) => 160,
         (false, true) => 3000,
